@@ -1532,3 +1532,7 @@ mod tests {
     assert!(results.unwrap().is_empty());
   }
 }
+
+#[cfg(rustdds_verif)]
+#[path = "/verif/harness/incrate/access/datareader.rs"]
+mod verif_access;
